@@ -3,7 +3,7 @@ comparison operator), the escape tables of the parser and of the serializer, the
 \\uXXXX branch, the double format recipe, the libc/libstdc++ primitives the parser delegates to, the insertion form of
 object members, and the error messages of every parser function in source order.
 
-The unit describes the code *as repaired* (F06/F07/F08/F34): the placeholder `\\u` branch, `std::to_string(double)` and a
+The unit describes the code *as repaired* (F06/F07/F08/F36): the placeholder `\\u` branch, `std::to_string(double)` and a
 `_parseString` without a bounds check are shapes it refuses (TranslateError = broken tie)."""
 import re
 import cxxscan
@@ -189,7 +189,7 @@ def gen(repo):
     if not re.search(r"_parseValue\s*\(\s*element\s*,\s*depth\s*\+\s*1\s*\)", pa) or not re.search(r"_parseValue\s*\(\s*value\s*,\s*depth\s*\+\s*1\s*\)", po):
         raise TranslateError("_parseArray/_parseObject: children are no longer parsed at depth + 1")
 
-    # ---- bounds check at the head of _parseString (repair F34)
+    # ---- bounds check at the head of _parseString (repair F36)
     if not re.match(r"\s*if\s*\(\s*_pos\s*>=\s*_text\.size\(\)\s*\|\|\s*_text\[_pos\]\s*!=\s*'\"'\s*\)", ps):
         raise TranslateError("_parseString: first statement is not `if (_pos >= _text.size() || _text[_pos] != '\"')` "
                              "(reads _text[size()] when an object ends where a key is expected)")
